@@ -65,6 +65,8 @@ def cases(draw):
         # many further unused file objects written straight into the store: listing / removal in pages
         # (fs.LIST_OBJECT_PAGE_SIZE = 1000) and batches must behave like the small case
         "bulk": draw(st.sampled_from([0] * 56 + [999, 1000, 1001, 2300])),
+        # spelling of the store path handed to the object store (listing yields normalised paths)
+        "path_form": draw(st.sampled_from(["plain", "plain", "plain", "trailing-sep", "dotdot", "dot", "double-sep"])),
         # name carried by the foreign-algorithm used ids
         "foreign": draw(st.sampled_from(["sha256", "md5-family", "md5-family"])),
     }
@@ -84,12 +86,19 @@ def run_case(case, ctx):
         algo = case.get("algo", "md5")
         other = "md5-dos2unix" if algo == "md5" else "md5"
         foreign = other if case.get("foreign") == "md5-family" else "sha256"
-        odb = ops.make_odb(case["kind"], store, hash_name=algo)
+        os.makedirs(os.path.join(d, "x"), exist_ok=True)
+        spelled = {
+            "trailing-sep": store + os.sep,
+            "dotdot": os.path.join(d, "x", "..", "store"),
+            "dot": os.path.join(d, ".", "store"),
+            "double-sep": d + os.sep + os.sep + "store",
+        }.get(case.get("path_form", "plain"), store)
+        odb = ops.make_odb(case["kind"], spelled, hash_name=algo)
         cache = None
         if case["sep_cache"]:
             cache = ops.make_odb("local", os.path.join(d, "cache"), hash_name=algo)
         dir_ids = []
-        odb2 = ops.make_odb(case["kind"], store, hash_name=algo) if case.get("two_handles") else odb
+        odb2 = ops.make_odb(case["kind"], spelled, hash_name=algo) if case.get("two_handles") else odb
         for i, t in enumerate(case["trees"]):
             src = os.path.join(d, f"t{i}")
             gen.materialise(t, src)
@@ -182,7 +191,7 @@ def run_case(case, ctx):
 
         target = odb
         if case["read_only"]:
-            target = ops.make_odb(case["kind"], store, read_only=True, hash_name=algo)
+            target = ops.make_odb(case["kind"], spelled, read_only=True, hash_name=algo)
         viols = []
         raised = None
         ret = None
@@ -252,6 +261,8 @@ def run_case(case, ctx):
             classes.append("legacy-unpacked-leftover")
         if case.get("bulk"):
             classes.append("bulk>=999-unused-objects")
+        if case.get("path_form", "plain") != "plain":
+            classes.append(f"store-path-spelled:{case['path_form']}")
         if case.get("two_handles") and case["trees"]:
             classes.append("objects-added-through-second-handle")
         if cache is not None:
